@@ -161,6 +161,7 @@ class NumOps:
                     ok,
                     f"divisor range {rb} " + ("excludes 0" if ok else "may contain 0"),
                     divisor=str(rb),
+                    operands=(b,),
                 )
                 rng = r if r is not None else Interval.top()
                 if a.sym is not None and a.sym == b.sym and ok:
@@ -189,7 +190,7 @@ class NumOps:
                     if k >= 2 and ra.finite() and "float" in (a.kinds or FLOAT):
                         # float ** int raises OverflowError (unlike float * float, which silently gives inf)
                         ok = rng.finite()
-                        self.I.oblige("pow-overflow", node, ok, f"base range {ra} ** {k} " + ("stays finite" if ok else "exceeds the float range (OverflowError)"))
+                        self.I.oblige("pow-overflow", node, ok, f"base range {ra} ** {k} " + ("stays finite" if ok else "exceeds the float range (OverflowError)"), operands=(a,))
                 if "float" not in (a.kinds or FLOAT):
                     kinds = INT
             else:
@@ -201,7 +202,7 @@ class NumOps:
                     deg = F0
                 if ra is not None:
                     ok = ra.gt0()
-                    self.I.oblige("pow", node, ok, f"base range {ra} of a non-integer power " + ("is positive" if ok else "may be <= 0"))
+                    self.I.oblige("pow", node, ok, f"base range {ra} of a non-integer power " + ("is positive" if ok else "may be <= 0"), operands=(a,))
                     rng = Interval(0.0, INF, True, True) if ok else Interval.top()
                 kinds = FLOAT if a.kinds else frozenset()
         elif isinstance(op, (ast.FloorDiv, ast.Mod)):
@@ -212,7 +213,7 @@ class NumOps:
                     deg = None if b.deg == POLY else (POLY if a.deg == POLY else a.deg - b.deg)
             if have_rng:
                 ok = not rb.contains_zero()
-                self.I.oblige("div", node, ok, f"divisor range {rb} " + ("excludes 0" if ok else "may contain 0"))
+                self.I.oblige("div", node, ok, f"divisor range {rb} " + ("excludes 0" if ok else "may contain 0"), operands=(b,))
                 rng = Interval.top()
                 if isinstance(op, ast.Mod) and rb.gt0() and rb.hi < INF:
                     rng = Interval(0.0, rb.hi, False, True)
